@@ -187,9 +187,10 @@ PROPS["C05"] = {
     "gens": ["Schema"],
     "required_theorems": ["mplan_eq", "uplan_eq", "elements_typed", "all_collections_written", "osm_json_roundtrip", "version_decoding",
                           "absent_fields_stay_empty", "names_eq_osmjson", "small_marshalers_pinned", "codec_routing", "tags_roundtrip",
-                          "waynodes_roundtrip"],
+                          "waynodes_roundtrip", "json_fields_roundtrip", "codec_json_keys_distinct", "json_decode_perm",
+                          "json_decode_ignores_unknown"],
     "technique": "Lean 4 theorems over the JSON container plans computed from facts regenerated from the source (top-level structs of OSM.MarshalJSON/UnmarshalJSON, elements expression, guarded assignments, dispatch targets, type shims, struct json tags): every element typed and filed back, container round trip for all contents, absent version stays empty, osmjson key names pinned, codec-routing helpers; executable plans and the real code compared on the same inputs; generated round trips and independently written osmjson documents under four codec configurations",
-    "level_text": "Machine-checked proof over plans regenerated from the source: OSM.MarshalJSON writes every collection either into `elements` under its type or as the top-level bounds; every element written carries a type the dispatcher of OSM.UnmarshalJSON files back into the collection it came from; for all top-level fields and all contents (payloads opaque) unmarshal(marshal(x)) = x, absent optional fields staying empty and a version given as string or number taken as written; struct json tags equal the pinned osmjson vocabulary; tags round-trip up to order for distinct keys; way nodes keep exactly their ids; both helpers consult the installed codec. The reflection codecs (encoding/json, or the installed one) are trusted and exercised: seeded values of every kind and container are marshalled, shape-checked on the generic parse, unmarshalled and compared under four codec configurations, and independently written osmjson documents are decoded and compared.",
+    "level_text": "Machine-checked proof over plans regenerated from the source: OSM.MarshalJSON writes every collection either into `elements` under its type or as the top-level bounds; every element written carries a type the dispatcher of OSM.UnmarshalJSON files back into the collection it came from; for all top-level fields and all contents (payloads opaque) unmarshal(marshal(x)) = x, absent optional fields staying empty and a version given as string or number taken as written; struct json tags equal the pinned osmjson vocabulary; tags round-trip up to order for distinct keys; way nodes keep exactly their ids; both helpers consult the installed codec; for every codec struct the scalar JSON keys (the flat part of the reflection codec: names, omitempty by kind, zero values) round-trip for every record, and decoding is independent of key order and ignores unknown keys (executable, compared with json.Marshal / json.Unmarshal on flat records with every field at zero or non-zero). The reflection codecs (encoding/json, or the installed one) are trusted and exercised: seeded values of every kind and container are marshalled, shape-checked on the generic parse, unmarshalled and compared under four codec configurations, and independently written osmjson documents are decoded and compared.",
     "level_note": "Trusted: Lean kernel; the fact extractor; encoding/json; the pinned vocabulary; the harness's independent osmjson writer. The custom codec used is an encoding/json wrapper with a different encoder configuration (json-iterator is cached offline but its reflect2 dependency does not run on this Go toolchain). Element payloads are opaque in the theorems.",
     "design_ref": "DESIGN.md §5 C05",
     "trusted_base": ["encoding/json reflection codec", "independent osmjson writer harness/c05.go"],
@@ -217,7 +218,7 @@ PROPS["C08"] = {
     "gens": ["Pbf"],
     "model_is_spec": ["filt "],
     "required_theorems": ["reuses_eq", "skip_guards", "reuse_is_fresh", "mergeWay_fresh", "mergeRel_fresh", "mergeNode_fresh",
-                          "scanGroup_eq_filter", "scanBlock_eq_filter", "scanBlock_sublist"],
+                          "scanGroup_eq_filter", "scanBlock_eq_filter", "scanBlock_sublist", "scanFile_eq_filter"],
     "technique": "Lean 4 model of scanPrimitiveGroup / extractDenseNodes with one accumulator per element kind, the accept/reject statements read from the source and interpreted; theorems: a reused accumulator is indistinguishable from a new one, a message on a fresh accumulator is the decoded element, hence for every selection (skip flags x arbitrary predicates) and every valid block the scan is the filter of the unfiltered decode (a subsequence of unmodified elements); the executable model, the real scanner and the filter of the real unfiltered scan compared on generated files; snapshots of returned objects compared at the end of the scan",
     "level_text": "Machine-checked proof: for all predicates and all 8 skip-flag combinations, every valid block, scanBlock (the model of the decoder loop with accumulator reuse, driven by the replacement and overwrite literals regenerated from the source) equals the filter of decodeBlock - in particular a sublist of it with unchanged elements. Correspondence: generated files scanned by the real scanner under skip flags and deterministic predicates with 1..8 decoders, compared with the model and with the filter of the scanner's own unfiltered result. Aliasing (memory of rejected elements reused while returned objects are retained) is outside a value-level model: every returned object is snapshotted when Scan returns it and compared again after the scan ended.",
     "level_note": "Trusted: Lean kernel; the fact extractor; the interpretation of composite literals in Model/PbfScan.lean; Go slice aliasing is observed at run time only (snapshots), not proved.",
@@ -244,7 +245,8 @@ PROPS["C06"] = {
     "props": ["OsmVerif.Props.C06"],
     "gens": ["Pbf"],
     "model_is_spec": ["cut ", "dmg "],
-    "required_theorems": ["conv_eq", "readFrame_spec", "scanCut_spec", "cut_stream", "damage_checks_present"],
+    "required_theorems": ["conv_eq", "readFrame_spec", "scanCut_spec", "cut_stream", "damage_checks_present", "dense_column_mismatch",
+                          "dense_short_version_column", "way_user_out_of_range", "tags_key_out_of_range", "rel_column_mismatch", "block_with_bad_group"],
     "technique": "Lean 4 model of the framing reader on a stream that ends early (io.ReadFull contract assumed, EOF handling of the three readers regenerated from the source): theorem for every stream of frames and every cut offset - objects of the complete blocks, success only on a block boundary; the rejecting checks of every damage class pinned in the regenerated function bodies; the real scanner run on every byte offset of generated files and on every damage class at every block position, each damaged scan in an isolated child process with a watchdog",
     "level_text": "Machine-checked proof over all streams and all cut offsets: with the EOF handling read from readBlobHeaderSize / readBlobHeader / readBlob, a stream of frames cut to k bytes yields exactly the objects of the frames present in full and ends in success iff k is a frame boundary (in particular not right after a length prefix or a blob header). Pinned in the regenerated bodies: the oversized/negative size checks, the raw-size and encoding checks of getData, the block type checks for the first and for later blocks, the required-feature gate, the plain-node rejection, the recover in Decode, the three mandatory dense columns. Correspondence: every byte offset 0..len of generated files, and 20 damage classes at every block position with 1..4 decoders; a child process per damaged scan makes a crash the observed result of that case, a watchdog reports hangs; the prefix of objects before the damage is compared with the model.",
     "level_note": "Trusted: Lean kernel; the fact extractor; the io.ReadFull contract; protobuf / zlib error reporting on corrupt bytes (exercised). That each pinned check fires on its damage class is shown by running it, not proved. A way whose lat/lon columns are longer than an EMPTY refs column is accepted silently by the library (nodes with id 0 are made up from the coordinates); it is not one of the property's damage classes and is recorded in DESIGN.md as an observation.",
